@@ -481,3 +481,48 @@ fn c14_families(th: bool, single: &[Op], last_pos: &[Op]) -> Vec<(Family, usize)
   fams.push((Family { name: "combining operators subscribed 2-3 times".into(), pipelines: mp, worlds: Arc::new(w_m), oracles: vec![Oracle::Independence] }, 1));
   fams
 }
+
+
+/// C07's single-threaded clause: a fixed slice of the sequential spaces is run
+/// under the lock monitor; every self-deadlock / panic seen there is a C07 finding.
+pub fn c07_slice(r: &mut Report, tier: &str) {
+  let th = thorough(tier);
+  let single = single_ops(th);
+  let mut last_pos = single.clone();
+  last_pos.extend(direct_ops(th));
+  let scripts = wf_scripts(&[1, 2], 2, &[Ending::Complete, Ending::Error, Ending::Silent]);
+  let mut w = vec![];
+  for sc in &scripts {
+    w.push(hot_world(sc));
+    w.push(cold_world(sc.clone(), true));
+    for pos in 0..=sc.len() {
+      let mut acts = vec![Act::Sub(0)];
+      for (i, e) in sc.iter().enumerate() {
+        if i == pos {
+          acts.push(Act::Unsub(0));
+        }
+        acts.push(Act::Emit(0, e.clone()));
+      }
+      if pos == sc.len() {
+        acts.push(Act::Unsub(0));
+      }
+      w.push(World { srcs: vec![SrcKind::Subject], acts });
+    }
+  }
+  let w = Arc::new(w);
+  let mut fams = vec![
+    (Family { name: "monitor slice: depth 1".into(), pipelines: depth1(&last_pos), worlds: w.clone(), oracles: vec![] }, 1),
+    (Family { name: "monitor slice: depth 2".into(), pipelines: depth2(&single, &last_pos), worlds: w.clone(), oracles: vec![] }, 2),
+  ];
+  for (mut f, d) in multi_families(false, false, vec![]) {
+    f.name = format!("monitor slice: {}", f.name);
+    fams.push((f, d));
+  }
+  let stop = AtomicBool::new(false);
+  let mut per = vec![];
+  for (f, depth) in fams {
+    let st = run_family("C07", &f, depth, &stop);
+    fold_stats(r, &f.name, st, &mut per);
+  }
+  r.extra.push(("monitor_slice_families".to_string(), J::A(per)));
+}
